@@ -198,7 +198,9 @@ Print Assumptions C08_ratio_reduce_signed.
    float-fallback-representable and bigint-small-repr-dependence for +, and nothing else
    (C08_add_known_fallback_tight).
    The same is proved uniformly for + - * below (C08_op_*, C08_full_addsubmul_outside).
-   STILL OPEN: the same for / , and the variadic folds of the builtins. *)
+   ... and for / (C08_div_outcome, C08_full_outside).
+   STILL OPEN: the variadic folds of the builtins (+ - * / applied to argument lists), modulo's
+   inexactness, abs floor ceiling truncate numerator denominator expt. *)
 Definition C08_inexact_only_if_stmt : Prop := forall p a b r (known_fallback : num -> num -> bool),
   wfb a = true -> wfb b = true -> is_exact a = true -> is_exact b = true ->
   known_fallback a b = false -> num_add p a b = Ok r -> is_exact r = false ->
@@ -280,6 +282,45 @@ Theorem C08_ratio_checked_mul_none_iff : forall p w a b, 2 <= w -> rok w a -> ro
   else rchecked_mul p w a b = Ok None.
 Proof. exact rchecked_mul_fits. Qed.
 Print Assumptions C08_ratio_checked_mul_none_iff.
+
+(* ---- / : the Debug build panics (class ratio32-overflow-panic), or the result exists in both
+   profiles and is inexact exactly on the explicit conditions [div_takes_fallback] (operands
+   outside i32; checked_div = None, given as the pure function [div_pure]) *)
+Theorem C08_div_outcome : forall p a b,
+  wfb a = true -> wfb b = true -> is_exact a = true -> is_exact b = true -> ~ (qv b == 0)%Q ->
+  (exists s, num_div Debug a b = Panic s) \/
+  exists r, num_div p a b = Ok r /\ is_exact r = negb (div_takes_fallback a b).
+Proof. exact div_outcome. Qed.
+Print Assumptions C08_div_outcome.
+
+Theorem C08_div_known_fallback_tight : forall p a b r,
+  wfb a = true -> wfb b = true -> is_exact a = true -> is_exact b = true -> ~ (qv b == 0)%Q ->
+  (forall s, num_div Debug a b <> Panic s) ->
+  div_known_fallback a b = true -> num_div p a b = Ok r ->
+  is_exact r = false /\ exists x, wfb x = true /\ is_exact x = true /\ (qv x == qv a / qv b)%Q.
+Proof. exact div_known_fallback_tight. Qed.
+Print Assumptions C08_div_known_fallback_tight.
+
+(* ---- C08_full, word for word, for all four operators and both profiles, with ONE extra
+   hypothesis: the operand pair is outside the decidable class [known] of its operator
+   (+ - *: fallback although representable; /: that, or the Debug build panics).  The classes
+   are the recorded findings ratio32-overflow-panic, float-fallback-representable and
+   bigint-small-repr-dependence; by the *_tight theorems every member of the fallback classes
+   really is a defect instance, so the hypothesis cannot be narrowed. *)
+Theorem C08_full_outside : forall p (op : profile -> num -> num -> out num) (opq : Q -> Q -> Q)
+    (known : num -> num -> bool),
+  In (op, opq, known)
+     [(num_add, Qplus, op_known_fallback AAdd); (num_sub, Qminus, op_known_fallback ASub);
+      (num_mul, Qmult, op_known_fallback AMul); (num_div, Qdiv, div_known)] ->
+  forall a b, wfb a = true -> wfb b = true -> is_exact a = true -> is_exact b = true ->
+  (opq = Qdiv -> ~ (qv b == 0)%Q) ->
+  known a b = false ->
+  exists r, op p a b = Ok r /\ wfb r = true /\
+    (is_exact r = true -> (qv r == opq (qv a) (qv b))%Q) /\
+    (is_exact r = false ->
+     forall x, wfb x = true -> is_exact x = true -> ~ (qv x == opq (qv a) (qv b))%Q).
+Proof. exact full_outside. Qed.
+Print Assumptions C08_full_outside.
 
 (* 2147483648 + -1/1 is the float 2147483647.0 although 2147483647 is a Fixnum *)
 Theorem C08_inexact_only_if_refuted : ~ C08_inexact_only_if_stmt.
@@ -386,6 +427,19 @@ Example C08_example_ops :
   op_takes_fallback ASub (Rational 7 2) (Fixnum 3) = false /\
   num_sub Debug (Rational 7 2) (Fixnum 3) = Ok (Rational 1 2) /\
   op_takes_fallback AMul (Rational (2 ^ 31 - 1) 2) (Fixnum 2) = false.
+Proof. repeat split; vm_compute; reflexivity. Qed.
+
+(* C08_full_outside on / : outside the class with an exact result, outside with a justified
+   inexact result ((/ 4294967296 3)), inside by fallback ((/ 4294967296 2)), inside by panic *)
+Example C08_example_div_full :
+  div_known (Fixnum 6) (Fixnum (-4)) = false /\ div_takes_fallback (Fixnum 6) (Fixnum (-4)) = false /\
+  div_known (Fixnum (2 ^ 32)) (Fixnum 3) = false /\
+  inexact_result (num_div Debug (Fixnum (2 ^ 32)) (Fixnum 3)) = true /\
+  div_known_fallback (Fixnum (2 ^ 32)) (Fixnum 2) = true /\
+  div_known (Rational 1 (2 ^ 31 - 1)) (Rational 2 3) = false /\
+  inexact_result (num_div Release (Rational 1 (2 ^ 31 - 1)) (Rational 2 3)) = true /\
+  div_debug_panics (Fixnum 1) (Fixnum (- 2 ^ 31)) = true /\
+  div_known (Rational 3 4) (Rational (-9) 8) = false.
 Proof. repeat split; vm_compute; reflexivity. Qed.
 
 (* C08_modulo_exact: hypotheses satisfiable on each interesting arm, incl. Fixnum by n/1 *)
